@@ -439,13 +439,16 @@ func (rc *RefConn) session(u UserCfg, reqArgs []string, e *Expect) {
 	}
 	for _, o := range out {
 		if len(o) < 2 || len(o) > 255 || !ascii([]byte(o)) {
+			// the grant cannot be put on the wire: the request is still owed one answer,
+			// and it cannot be a grant
 			e.Band = "unencodable-value"
-			e.Verdict = "unknown"
+			e.Statuses = []uint8{AuthorError, AuthorFail}
 			return
 		}
 	}
 	if len(out) > 255 {
-		e.Band, e.Verdict = "unencodable-value", "unknown"
+		e.Band = "unencodable-value"
+		e.Statuses = []uint8{AuthorError, AuthorFail}
 		return
 	}
 	e.ArgsKnown = true
